@@ -357,6 +357,9 @@ func C14(p *core.Program, r *core.Report) {
 		}
 		r.Add("P7", "Result.MarkupInfo is the parser's record, stored once and not patched", p.Pos(ap.Pos()), nWhole == 1 && bad == "", fmt.Sprintf("%d whole-record stores; other store: %s", nWhole, bad))
 	}
+	// ---- P8
+	checkPrefixTable(p, r, "P8")
+
 }
 
 // neverAfter reports that instruction a can never execute after instruction b.
@@ -507,4 +510,52 @@ func appendedIfaceType(c *ssa.Call) string {
 		}
 	}
 	return ""
+}
+
+// checkPrefixTable (C14-P8): OpenGraph counts only when its required properties are found, and
+// they are found under the prefix the page declares for the og namespace. The declared prefixes
+// go into a three-entry table (og, profile, article); a declaration for another ogp.me namespace
+// (fb, video, music ...) must leave it alone. Decision paths of addObjectType with the table
+// writes as events: the og entry is written only for the bare namespace (object type ""), the
+// profile/article entries only for their own object type, anything else writes nothing.
+func checkPrefixTable(p *core.Program, r *core.Report, rule string) {
+	fn := mustInl(p, r, rule, "(mod/internal/markup/opengraph.PrefixNameList).addObjectType")
+	if fn == nil {
+		return
+	}
+	paths, _, err := core.EnumerateDecisions(p, fn, core.DecisionOpts{Outcome: noOutcome,
+		Event: func(in ssa.Instruction, c *core.Canon) (string, bool) {
+			if mu, ok := in.(*ssa.MapUpdate); ok {
+				return "set " + c.Of(mu.Key), true
+			}
+			return "", false
+		}})
+	if err != nil {
+		r.Undecided(rule, "addObjectType", err.Error())
+		return
+	}
+	want := map[string]string{"opengraph.OG": `$2 == ""`, "opengraph.Profile": `strings.TrimPrefix($2,"/") == "profile"`, "opengraph.Article": `strings.TrimPrefix($2,"/") == "article"`}
+	var bad []string
+	n := 0
+	for _, pa := range paths {
+		for _, ev := range pathEvents(pa) {
+			if !strings.HasPrefix(ev, "set ") {
+				continue
+			}
+			n++
+			k := strings.TrimPrefix(ev, "set ")
+			cond, known := want[k]
+			ok := false
+			for _, l := range pa.Lits {
+				if known && l.Atom == cond && l.Val {
+					ok = true
+				}
+			}
+			if !ok {
+				bad = append(bad, shortVal(pa.String()))
+			}
+		}
+	}
+	r.Add(rule, "a declared prefix is stored only under the entry of its own namespace (og for the bare namespace, profile, article)", p.Pos(fn.Pos()), n >= 3 && len(bad) == 0,
+		fmt.Sprintf("%d table writes on %d decision paths, %d not conditioned on their own object type", n, len(paths), len(bad)), bad...)
 }
